@@ -180,6 +180,10 @@ func (n *lazyNode) tryAry() bool {
 }
 
 func (n *lazyNode) equal(o *lazyNode) bool {
+	if o == nil {
+		return false
+	}
+
 	if n.which == eRaw {
 		if !n.tryDoc() && !n.tryAry() {
 			if o.which != eRaw {
@@ -237,7 +241,17 @@ func (n *lazyNode) equal(o *lazyNode) bool {
 	}
 
 	for idx, val := range n.ary {
-		if !val.equal(o.ary[idx]) {
+		oval := o.ary[idx]
+
+		if (val == nil) != (oval == nil) {
+			return false
+		}
+
+		if val == nil {
+			continue
+		}
+
+		if !val.equal(oval) {
 			return false
 		}
 	}
